@@ -167,6 +167,62 @@ def lexFinish (s : Lex) : Lex := s.save s.fileId (s.curLine - s.saved)
 /-- the absolute line a parse node created now would carry (before the `(short)` cast) -/
 def Lex.abs (s : Lex) : Int := s.base + s.curLine
 
+/-! ## file ids: `add_program_file` / `program_file_id` and the program string table -/
+
+/-- lexer counters plus what decides the file ids: the program string table (slot `i` holds a string, file id =
+    slot + 1), `current_file` and the `file` fields of the include stack (strings are abstract identities) -/
+structure LexN where
+  lex : Lex := {}
+  tbl : List Nat := []          -- A_STRINGS
+  curName : Nat := 0            -- current_file
+  nameStack : List Nat := []    -- is->file of the include stack
+deriving Repr
+
+inductive LexEvN where
+  | nl
+  | incl (name : Nat)           -- `#include` of the file whose path is the string `name`
+  | eof
+  | store (name : Nat)          -- any other `store_prog_string` of the compiler (string literals, identifiers …)
+deriving Repr, DecidableEq
+
+/-- slot of the newest table entry holding `name` (`store_prog_string` walks the hash chain from its head) -/
+def lastIdx (tbl : List Nat) (name : Nat) : Option Nat :=
+  (List.range tbl.length).reverse.find? (fun i => tbl.getD i 0 == name)
+
+/-- `store_prog_string`: (index + 1, table) -/
+def storeStr (tbl : List Nat) (name : Nat) : Nat × List Nat :=
+  match lastIdx tbl name with
+  | some i => (i + 1, tbl)
+  | none => (tbl.length + 1, tbl ++ [name])
+
+/-- `program_file_id (name, 0)`: the id `store_prog_string` gives, unless a segment of `A_FILE_INFO` already uses it
+    (`fi[i] == (unsigned short) file_id`): then `store_prog_string_again` appends an entry of its own -/
+def fileIdFor (fi : List Seg) (tbl : List Nat) (name : Nat) : Nat × List Nat :=
+  let r := storeStr tbl name
+  if fi.any (fun s => s.file == u16 r.1) then (r.2.length + 1, r.2 ++ [name]) else r
+
+def lexStepN (s : LexN) : LexEvN → LexN
+  | .nl => { s with lex := lexStep s.lex .nl }
+  | .store name => { s with tbl := (storeStr s.tbl name).2 }
+  | .incl name =>
+    -- handle_include: save_file_info of the parent FIRST, then add_program_file
+    let l := s.lex.curLine + 1
+    let c := l - 1
+    let s1 := s.lex.save s.lex.fileId (c - s.lex.saved)
+    let r := fileIdFor s1.fi s.tbl name
+    { lex := { s1 with stack := (l, s.lex.fileId) :: s.lex.stack, base := s.lex.base + c, saved := 0, curLine := 1,
+                       fileId := r.1 },
+      tbl := r.2, curName := name, nameStack := s.curName :: s.nameStack }
+  | .eof =>
+    match s.nameStack with
+    | [] => { s with lex := lexStep s.lex .eof }
+    | n :: rest => { s with lex := lexStep s.lex .eof, curName := n, nameStack := rest }
+
+def lexRunN (s : LexN) (evs : List LexEvN) : LexN := evs.foldl lexStepN s
+
+/-- start of a compilation: `add_program_file (name, 1)` on the empty table gives the main file id 1 -/
+def initN (main : Nat) : LexN := { lex := { fileId := 1 }, tbl := [main], curName := main }
+
 /-! ## decoder -/
 
 inductive Dec where
